@@ -100,7 +100,7 @@ Actions ==
   \cup {[A0 EXCEPT !.op = o, !.v = v] : o \in {"gsetlist", "gmutlist"}, v \in {1, 2}}
   \cup {[A0 EXCEPT !.op = "yaml", !.has = h, !.v = v] : h \in Partials, v \in Vals}      \* the empty assignment: a parameter file with every entry commented out
   \cup {[A0 EXCEPT !.op = "resetall"]}
-  \cup {[A0 EXCEPT !.op = "reset", !.has = h] : h \in (SUBSET {"msa", "sep", "slc"}) \ {{}}}
+  \cup {[A0 EXCEPT !.op = "reset", !.has = h] : h \in SUBSET {"msa", "sep", "slc"}}      \* {}: a name outside the modelled paths (MSA_HIT_BUFFER)
   \cup {[A0 EXCEPT !.op = "setcaller", !.u = u, !.has = h, !.v = v] : u \in 1..2, h \in Partials, v \in Vals}     \* v = 0: the default value (None for MSA) named explicitly
   \cup {[A0 EXCEPT !.op = "construct", !.c = c, !.u = u] : c \in 1..2, u \in 0..2}
   \cup {[A0 EXCEPT !.op = "run", !.c = c] : c \in 1..2}
